@@ -629,10 +629,10 @@ LEVEL_TEXT = (
     "attributes, primitive- and model-typed elements optional/required/list, a text var, every combination of class and field "
     "namespaces) and bind_generate_F2..F8 / bind_generate_FN (Props/C01Wide.lean: + nillable vars and classes, token lists, wrapper "
     "lists, sequence groups, one Attributes map per class, init=False fields, instances of proper subclasses with xsi:type resolved "
-    "through the prefix map, one list wildcard per class holding generic elements in the parser's normal form), under decidable hypotheses ctxOK (universe) and valOK/valOKI (instance) that the driver evaluates on "
+    "through the prefix map, one wildcard per class (a list, or a single generic element) holding generic elements in the parser's normal form), under decidable hypotheses ctxOK (universe) and valOK/valOKI (instance) that the driver evaluates on "
     "exported real universes; each remaining value-level exclusion that is a defect has a machine-checked witness replayed on the "
-    "real code, the eight defects repaired by repo-patches c01g-01..08 have *_repaired theorems. Outside these fragments (single "
-    "wildcards, tails of generic elements, mixed content, anyType, compound fields, unions, QName-typed and non str/int/bool values, DerivedElements, a text var next to "
+    "real code, the eight defects repaired by repo-patches c01g-01..08 have *_repaired theorems. Outside these fragments ("
+    "tails of generic elements, mixed wildcards, anyType, compound fields, unions, QName-typed and non str/int/bool values, DerivedElements, a text var next to "
     "child elements) the executable model is compared with the real generator, parser and the four writer x handler combinations, "
     "but no round-trip theorem is claimed yet."
 )
